@@ -27,14 +27,6 @@ theorem icvMatches_eq (site : String) (buf : Bytes) (i : Nat) (crc : BitVec 32) 
   congr 1
   by_cases hh : [buf[i], buf[i + 1], buf[i + 2], buf[i + 3]] = le32 crc <;> simp [hh]
 
-/-- what `decrypt(RawPDU&, password)` returns for the decapsulated data `m?` -/
-def snapResult (ip : InnerParser) (m : Option Bytes) : Option Snap :=
-  match m with
-  | none => none
-  | some m => match snapParse ip m with
-    | .ok s => some s
-    | _ => none
-
 /-- the payload vector after the in-place RC4 pass of the WEP path -/
 def wepScrambled (pload password : Bytes) : Bytes :=
   rc4 (pload.take 3 ++ password) (pload.drop 4) ++ pload.drop (pload.length - 4)
